@@ -71,19 +71,6 @@ theorem differs_of_eval (defs : List Macro) (toks : List PTok) (n fuel : Nat) (m
 
 /-! ## the witnesses -/
 
-/-- **line-end-before-parenthesis.** `#define F(X) X`; `F` ⏎ `(1)`.  rssl: `F ⏎ ( 1 )` (a line end stops the search
-for `(`); C: `1`. -/
-theorem differs_line_end_before_parenthesis :
-    let defs : List Macro := [⟨"F", true, 1, loc [.arg 0]⟩]
-    let toks := loc [.id "F", .endline, .lparen, .int "1", .rparen]
-    applyMacros defs toks = .ok toks ∧ refToks defs 10 toks = .ok [.int "1"] ∧ ¬ Agree defs toks ∧
-      ¬ ∃ out, Tame (allEnabled defs) toks out := by
-  intro defs toks
-  have h := differs_of_eval defs toks 10 10 (.ok toks) [.int "1"] (by decide) (by decide +kernel)
-    (by intro out ho; cases ho; decide)
-  exact ⟨h.1, h.2.1, h.2.2, not_tame_of_not_agree defs toks
-    (fun m hm => wfMacro_of_wfB m (by revert m; decide)) h.2.2⟩
-
 /-- **unused-argument-expanded.** `#define K(X) 3`, `#define G(X) X`; `K(G(1,2))`.  rssl expands the argument although
 the parameter does not occur in the replacement list and reports the wrong number of arguments for `G`; C: `3`. -/
 theorem differs_unused_argument_expanded :
@@ -178,12 +165,10 @@ theorem not_tameP_of_not_agree (defs : List Macro) (toks : List PTok) (hwf : ∀
   obtain ⟨h1, fuel, r, h2, h3⟩ := expand_refines_spec_with_paste defs toks out hwf hnc hT
   exact h ⟨out, fuel, r, h1, h2, h3⟩
 
-/-- **The seven witnesses lie outside the class with `##` as well** (`TameP`, the class of
+/-- **The six witnesses lie outside the class with `##` as well** (`TameP`, the class of
 `expand_refines_spec_with_paste`) -- in particular `F()` for `#define F(X) P ## X Q`: an empty argument next to
 `##`. -/
 theorem differs_outside_class_with_paste :
-    (¬ ∃ out, TameP (allEnabled [⟨"F", true, 1, loc [.arg 0]⟩])
-      (loc [.id "F", .endline, .lparen, .int "1", .rparen]) out) ∧
     (¬ ∃ out, TameP (allEnabled [⟨"K", true, 1, loc [.int "3"]⟩, ⟨"G", true, 1, loc [.arg 0]⟩])
       (loc [.id "K", .lparen, .id "G", .lparen, .int "1", .comma, .int "2", .rparen, .rparen]) out) ∧
     (¬ ∃ out, TameP (allEnabled [⟨"B", false, 0, loc [.id "B", .ws, .int "0"]⟩, ⟨"ID", true, 1, loc [.arg 0]⟩])
@@ -197,9 +182,7 @@ theorem differs_outside_class_with_paste :
         ⟨"A", false, 0, loc [.id "F", .ws, .id "E"]⟩]) (loc [.id "A", .lparen, .int "1", .rparen]) out) ∧
     (¬ ∃ out, TameP (allEnabled [⟨"F", true, 1, loc [.id "P", .ws, .concat, .ws, .arg 0, .ws, .id "Q"]⟩])
       (loc [.id "F", .lparen, .rparen]) out) := by
-  refine ⟨?_, ?_, ?_, ?_, ?_, ?_, ?_⟩
-  · exact not_tameP_of_not_agree _ _ (fun m hm => wfMacroP_of_wfPB m (by revert m; decide))
-      (by unfold NoConcat; decide) differs_line_end_before_parenthesis.2.2.1
+  refine ⟨?_, ?_, ?_, ?_, ?_, ?_⟩
   · exact not_tameP_of_not_agree _ _ (fun m hm => wfMacroP_of_wfPB m (by revert m; decide))
       (by unfold NoConcat; decide) differs_unused_argument_expanded.2.2.1
   · exact not_tameP_of_not_agree _ _ (fun m hm => wfMacroP_of_wfPB m (by revert m; decide))
@@ -218,6 +201,35 @@ theorem agree_of_eval (defs : List Macro) (toks out : List PTok) (n fuel : Nat) 
     (hs : refToks defs fuel toks = .ok ks) (heq : ks = ppTokens out) : Agree defs toks := by
   obtain ⟨r0, h1, h2⟩ := refToks_ok hs
   exact ⟨out, fuel, r0, model_eval n defs toks _ hm, h1, by rw [h2, heq]⟩
+
+/-- **line-end-before-parenthesis, repaired (fix f08088c).**  The former witness of a deviation, `#define F(X) X`;
+`F` ⏎ `(1)`: rssl now gives `1` like C (it was `F ⏎ ( 1 )`: a line end stopped the search for `(`), and the input lies
+in the tame class, so it is covered by `expand_refines_spec`.  The same for a macro without parameters whose empty
+argument list holds a line break, `#define Z() 7`; `Z(` ⏎ `)` (it was rejected for its argument count), and for a line
+comment / several line ends between the name and `(`.  The universal statements: `invocation_may_continue_on_next_line`
+(the search for `(` is the C reading "next token that is not white space"), `function_like_is_substitution` (any
+white space before `(`), and the refinement theorems, whose class now contains these invocations. -/
+theorem agrees_line_end_before_parenthesis :
+    let F : Macro := ⟨"F", true, 1, loc [.arg 0]⟩
+    let Z : Macro := ⟨"Z", true, 0, loc [.int "7"]⟩
+    (applyMacros [F] (loc [.id "F", .endline, .lparen, .int "1", .rparen]) = .ok (loc [.int "1"]) ∧
+      refToks [F] 10 (loc [.id "F", .endline, .lparen, .int "1", .rparen]) = .ok [.int "1"] ∧
+      Agree [F] (loc [.id "F", .endline, .lparen, .int "1", .rparen]) ∧
+      Tame (allEnabled [F]) (loc [.id "F", .endline, .lparen, .int "1", .rparen]) (loc [.int "1"])) ∧
+    (applyMacros [Z] (loc [.id "Z", .lparen, .endline, .rparen]) = .ok (loc [.int "7"]) ∧
+      Agree [Z] (loc [.id "Z", .lparen, .endline, .rparen]) ∧
+      Tame (allEnabled [Z]) (loc [.id "Z", .lparen, .endline, .rparen]) (loc [.int "7"])) ∧
+    Agree [F, Z] (loc [.id "F", .ws, .endline, .endline, .ws, .lparen, .id "Z", .endline, .lparen, .ws, .endline,
+      .rparen, .rparen]) := by
+  intro F Z
+  refine ⟨⟨?_, by decide +kernel, ?_, ?_⟩, ⟨?_, ?_, ?_⟩, ?_⟩
+  · exact model_eval 10 [F] _ _ (by decide)
+  · exact agree_of_eval _ _ (loc [.int "1"]) 10 10 [.int "1"] (by decide) (by decide +kernel) (by decide)
+  · exact tameRun_sound 10 _ _ _ (by decide) (by decide)
+  · exact model_eval 10 [Z] _ _ (by decide)
+  · exact agree_of_eval _ _ (loc [.int "7"]) 10 10 [.int "7"] (by decide) (by decide +kernel) (by decide)
+  · exact tameRun_sound 10 _ _ _ (by decide) (by decide)
+  · exact agree_of_eval _ _ (loc [.int "7"]) 12 12 [.int "7"] (by decide) (by decide +kernel) (by decide)
 
 /-- **Invocations completed after the end of an expansion on which rssl and C agree** (the counterpart of
 `differs_painted_function_name_reinvoked` / `differs_function_name_before_vanished_macro`; the universal statement
@@ -256,5 +268,53 @@ example :
     (fun m hm => wfMacro_of_wfB m (by revert m; decide)) (by decide) (by decide : _ = some (loc [.id "F", .ws, .ws, .lparen, .int "1", .rparen]))
   obtain ⟨h1, fuel, r, h2, h3⟩ := h
   exact ⟨_, fuel, r, h1, h2, h3⟩
+
+/-! ## inclusion: where "pasting the file's contents" and the block structure differ -/
+
+section FileBoundary
+open RsslVerif.Model.Include RsslVerif.Lemmas.MacroApi RsslVerif.Lemmas.Include
+
+/-- entry file: `#define F(X) X` / `#include "f1"` / `(1)` -/
+def boundaryMain : List Line :=
+  [.define (loc [.ws, .id "F", .lparen, .id "X", .rparen, .ws, .id "X"]), .incl "f1",
+    .text (loc [.lparen, .int "1", .rparen])]
+/-- the header `f1`: `F` -/
+def boundaryHeader : List Line := [.text (loc [.id "F"])]
+/-- the entry file with the header's line pasted in place of the directive -/
+def boundaryPasted : List Line :=
+  [.define (loc [.ws, .id "F", .lparen, .id "X", .rparen, .ws, .id "X"]), .text (loc [.id "F"]),
+    .text (loc [.lparen, .int "1", .rparen])]
+def boundaryHandler (main : List Line) : Handler := fun n =>
+  if n = "main" then some ("main", main) else if n = "f1" then some ("f1", boundaryHeader) else none
+
+/-- **invocation-spans-file-boundary** (negation witness for the plain textual reading of "`#include` is equivalent to
+pasting the file's contents"; visible on its own since fix f08088c -- before it the pasted program gave `F ( 1 )` too,
+because of the line end).  The header ends in the name of a function-like macro and the including file continues with
+`(1)`: rssl expands the text before an `#include`, the included file and the text after it as separate blocks and
+gives `F ( 1 )`; the program with the header's line pasted in gives `1`.  `include_is_paste` is the true statement: the
+pasted lines stand between two block boundaries.  (C compilers agree with rssl here: clang cites C99 5.1.1.2p4, GCC
+stops its look-ahead at the end of an included buffer.) -/
+theorem differs_invocation_spanning_file_boundary :
+    (preprocess (boundaryHandler boundaryMain) 10 [] "main").map prepare =
+      .ok (.ok [.id "F", .lparen, .int "1", .rparen]) ∧
+    (preprocess (boundaryHandler boundaryPasted) 10 [] "main").map prepare = .ok (.ok [.int "1"]) := by
+  have hd : doDefine [] (loc [.ws, .id "F", .lparen, .id "X", .rparen, .ws, .id "X"]) =
+      .ok [⟨"F", true, 1, loc [.arg 0]⟩] := by decide
+  have e1 : applyMacros [⟨"F", true, 1, loc [.arg 0]⟩] (loc [.id "F", .endline]) = .ok (loc [.id "F", .endline]) :=
+    model_eval 10 _ _ _ (by decide)
+  have e2 : applyMacros [⟨"F", true, 1, loc [.arg 0]⟩] (loc [.lparen, .int "1", .rparen, .endline]) =
+      .ok (loc [.lparen, .int "1", .rparen, .endline]) := model_eval 10 _ _ _ (by decide)
+  have e3 : applyMacros [⟨"F", true, 1, loc [.arg 0]⟩]
+      (loc [.id "F", .endline, .lparen, .int "1", .rparen, .endline]) = .ok (loc [.int "1", .endline]) :=
+    model_eval 10 _ _ _ (by decide)
+  constructor
+  · simp [preprocess, boundaryHandler, boundaryMain, boundaryHeader, runInitial, initialMacros, runFile, fileStart,
+      foldLines, stepLine, flush, applyMacros_nil, includeFile, eol, loc] at hd e1 e2 ⊢
+    simp [hd, e1, e2, applyMacros_nil, prepare, Except.map, Tok.isWhitespace]
+  · simp [preprocess, boundaryHandler, boundaryPasted, runInitial, initialMacros, runFile, fileStart, foldLines,
+      stepLine, flush, applyMacros_nil, eol, loc] at hd e3 ⊢
+    simp [hd, e3, prepare, Except.map, Tok.isWhitespace]
+
+end FileBoundary
 
 end RsslVerif.Thm.C12
